@@ -585,6 +585,9 @@ func run(c *mc.Ctx) {
 	// ---------------------------------------------------------------- (v) multiscalar at the algorithm thresholds
 	s.large(c)
 	lap("msm-large")
+	// ---------------------------------------------------------------- (vi) operation histories of the stateful precomputed objects
+	s.histories(c)
+	lap("histories")
 
 	if c.Rep.NViolations > 0 {
 		return // a violation is being reported; a panicking case may not have reached its accounting, so the guards would only add noise
